@@ -43,9 +43,9 @@ package extendeddaemonset
 //@
 //@ func selectCurrentReplicaSet
 //@   requires daemonset != nil && upToDateRS != nil
+//@   modifies nothing
 //@   let C = daemonset.Spec.Strategy.Canary
 //@   let A = daemonset.ObjectMeta.Annotations
-//@   requires C != nil ==> C.ValidationMode == "auto" || C.ValidationMode == "manual"
 //@   requires validated: C != nil && C.ValidationMode == "manual" ==> C.Duration == nil && C.NoRestartsDuration == nil
 //@   let rc = conditions.GetExtendedDaemonSetReplicaSetStatusCondition(&upToDateRS.Status, v1.ConditionTypePodRestarting)
 //@   let lastRestart = ite(rc != nil, rc.LastUpdateTime.Time, 0)
@@ -58,12 +58,12 @@ package extendeddaemonset
 //@   ensures [C05] one-of: result == activeRS || result == upToDateRS
 //@   ensures [C05] adopt-when-active-missing: activeRS == nil ==> result == upToDateRS
 //@   ensures [C05] promotion: result == upToDateRS && activeRS != nil && activeRS != upToDateRS ==>
-//@             C == nil || valid || (C.ValidationMode == "auto" && timeOK && !paused && !failed)
+//@             C == nil || valid || (C.ValidationMode != "manual" && timeOK && !paused && !failed)
 //@   ensures [C05] failed-never-by-time: activeRS != nil && activeRS != upToDateRS && C != nil && failed && !valid ==> result == activeRS
 //@   ensures [C05] manual-never-by-time: activeRS != nil && activeRS != upToDateRS && C != nil && C.ValidationMode == "manual" && !valid ==> result == activeRS
 //@   ensures [C05,C08] paused-not-promoted-by-time: activeRS != nil && activeRS != upToDateRS && C != nil && paused && !valid ==> result == activeRS
 //@   ensures promotes-when-allowed: activeRS != nil && activeRS != upToDateRS &&
-//@             (C == nil || valid || (C.ValidationMode == "auto" && timeOK && C.Duration.Duration > 0 && !paused && !failed)) ==> result == upToDateRS
+//@             (C == nil || valid || (C.ValidationMode != "manual" && timeOK && C.Duration.Duration > 0 && !paused && !failed)) ==> result == upToDateRS
 //@
 //@ import edsconditions "github.com/DataDog/extendeddaemonset/controllers/extendeddaemonset/conditions"
 //@
@@ -174,5 +174,40 @@ package extendeddaemonset
 //@   ensures [C13] faithful-template: sameTemplateScalars(&result.Spec.Template, &daemonset.Spec.Template)
 //@   ensures [C12,C13] belongs-to-the-daemonset: result.ObjectMeta.Namespace == daemonset.ObjectMeta.Namespace
 //@             && result.ObjectMeta.Labels != nil && result.ObjectMeta.Labels["extendeddaemonset.datadoghq.com/name"] == daemonset.ObjectMeta.Name
+//@   ensures [C13] named-by-the-server: result.ObjectMeta.Name == ""
 //@   ensures [C12,C13] no-label-from-elsewhere: forall k string :: (k in result.ObjectMeta.Labels) ==> k == "extendeddaemonset.datadoghq.com/name" || old(k in daemonset.ObjectMeta.Labels)
 //@   loop 1 invariant forall k string :: (k in labels) ==> (k in daemonset.ObjectMeta.Labels)
+//@
+//@ func (*Reconciler).createNewReplicaSet
+//@   logs
+//@   requires r != nil && r.client != nil && r.recorder != nil && daemonset != nil
+//@   modifies mapof(daemonset.ObjectMeta.Annotations)
+//@   let h = comparison.GenerateMD5PodTemplateSpec(&daemonset.Spec.Template)
+//@   ensures [C11,C13] at-most-one-call-and-it-is-a-create: forall k int :: lognew(k) ==> k == old(loglen()) && logverb(k) == "Create"
+//@   ensures [C13] creates-a-faithful-replica-set: forall k int :: lognew(k) ==> cast(logsent(k), "*v1.ExtendedDaemonSetReplicaSet").Spec.TemplateGeneration == fst(h)
+//@             && cast(logsent(k), "*v1.ExtendedDaemonSetReplicaSet").ObjectMeta.Annotations["extendeddaemonset.datadoghq.com/templatehash"] == fst(h)
+//@             && sameTemplateScalars(&cast(logsent(k), "*v1.ExtendedDaemonSetReplicaSet").Spec.Template, &daemonset.Spec.Template)
+//@   ensures [C12,C13] created-replica-set-belongs-to-the-daemonset: forall k int :: lognew(k) ==> cast(logsent(k), "*v1.ExtendedDaemonSetReplicaSet").ObjectMeta.Namespace == daemonset.ObjectMeta.Namespace
+//@             && cast(logsent(k), "*v1.ExtendedDaemonSetReplicaSet").ObjectMeta.Labels["extendeddaemonset.datadoghq.com/name"] == daemonset.ObjectMeta.Name
+//@             && cast(logsent(k), "*v1.ExtendedDaemonSetReplicaSet").ObjectMeta.Name == ""
+//@   ensures [C11] reports-failure: result1 == nil ==> loglen() == old(loglen()) + 1
+//@   ensures [C11,C13] at-most-one-call: loglen() <= old(loglen()) + 1
+//@
+//@ func (*Reconciler).Reconcile
+//@   logs
+//@   requires r != nil && r.client != nil && r.recorder != nil
+//@   requires configured: r.options.DefaultValidationMode == "auto" || r.options.DefaultValidationMode == "manual"
+//@   modifies nothing
+//@   let n0 = old(loglen())
+//@   let I = cast(logobj(n0), "*v1.ExtendedDaemonSet")
+//@   let L = cast(logobj(n0 + 1), "*v1.ExtendedDaemonSetReplicaSetList")
+//@   ensures [C11] starts-by-reading-the-object: loglen() > n0 && logverb(n0) == "Get" && logkeyns(n0) == request.NamespacedName.Namespace && logkeyname(n0) == request.NamespacedName.Name
+//@   ensures [C11,C16] defaulting-write-ends-the-reconcile: forall k int :: lognew(k) && logverb(k) == "Update" && k == n0 + 1 ==> loglen() == n0 + 2
+//@   ensures [C12] replica-sets-are-listed-in-the-own-namespace: forall k int :: lognew(k) && logverb(k) == "List" && k == n0 + 1 ==> lognamespaced(k) && logns(k) == request.NamespacedName.Namespace
+//@   ensures [C11,C13] creates-only-right-after-listing: forall k int :: lognew(k) && logverb(k) == "Create" ==> k == n0 + 2 && logverb(n0 + 1) == "List" && loglen() == n0 + 3
+//@   ensures [C13] creates-only-when-no-listed-replica-set-matches: forall k int, i int :: lognew(k) && logverb(k) == "Create" && 0 <= i && i < len(L.Items) ==> !comparison.IsReplicaSetUpToDate(&L.Items[i], I)
+//@   ensures [C12,C13] creates-only-for-the-reconciled-object: forall k int :: lognew(k) && logverb(k) == "Create" ==> cast(logsent(k), "*v1.ExtendedDaemonSetReplicaSet").ObjectMeta.Namespace == I.ObjectMeta.Namespace
+//@             && cast(logsent(k), "*v1.ExtendedDaemonSetReplicaSet").ObjectMeta.Labels["extendeddaemonset.datadoghq.com/name"] == I.ObjectMeta.Name
+//@   ensures [C07,C12,C13] deletes-only-listed-replica-sets: forall k int :: lognew(k) && logverb(k) == "Delete" ==> n0 + 1 < k && logverb(n0 + 1) == "List" && root(logobj(k)) == root(L.Items)
+//@   loop 1 invariant upToDateRS == nil ==> forall i int :: 0 <= i && i < iter() ==> !comparison.IsReplicaSetUpToDate(&replicaSetList.Items[i], instance)
+//@   loop 1 invariant activeRS == nil || root(activeRS) == root(replicaSetList.Items)
